@@ -353,6 +353,15 @@ fn bad_points(len: usize, good: &[u8], salt: u64) -> Vec<(&'static str, Vec<u8>)
     let mut f = vec![0xffu8; len];
     f[0] = 0x9f; // x >= p
     v.push(("x-not-reduced", f));
+    // the honest point plus a point of small order: on the curve, outside the subgroup, and — in the group whose torsion
+    // pairs to one — indistinguishable from the honest point for every pairing equation; only the subgroup check tells
+    if let Some(p) = Pt::from_bytes(good) {
+        let t = p.add(&refimpl::small_order_point(len, salt ^ 0x7057));
+        let b = t.to_bytes();
+        if refimpl::classify_point(&b) == PointClass::OnCurveNotInSubgroup {
+            v.push(("honest-plus-small-order", b));
+        }
+    }
     v
 }
 
@@ -400,6 +409,38 @@ fn compensated_sets(hdr: usize, items: &[Vec<u8>], salt: u64) -> Vec<(String, Ve
 fn must_reject(rec: &mut Rec, lib: &dyn Lib, g: Grp, ty: Ty, cd: Codec, bytes: &[u8], why: &str) {
     let out = recode(rec, lib, g, ty, cd, Codec::Bytes, bytes);
     rec.expect("C16", "malformed-encoding-rejected", !out.is_ok(), || format!("{} {} {} | decoder returned a value for a malformed encoding ({})", why, ty.name(), cd.name(), short(bytes)));
+}
+
+/// What a Byzantine encoder does in any codec: take the honest value's encoding in `cd` and put the bytes `bad` where
+/// the point `good` stood (hex text in the human-readable forms, a run of small integers / a byte string in the
+/// harness's own format, the raw bytes otherwise). None when the codec's text does not carry the point that way.
+pub fn forge_point_in_codec(rec: &mut Rec, lib: &dyn Lib, g: Grp, ty: Ty, cd: Codec, honest_bytes_form: &[u8], good: &[u8], bad: &[u8]) -> Option<Vec<u8>> {
+    if good.len() != bad.len() || good.is_empty() {
+        return None;
+    }
+    let enc = recode(rec, lib, g, ty, Codec::Bytes, cd, honest_bytes_form).first().map(|b| b.to_vec())?;
+    match cd {
+        Codec::Json | Codec::JsonReader | Codec::JsonValue => {
+            let text = String::from_utf8_lossy(&enc).to_string();
+            if !text.contains(&hex(good)) {
+                return None;
+            }
+            Some(text.replacen(&hex(good), &hex(bad), 1).into_bytes())
+        }
+        _ if is_tree(cd) => {
+            let mut tree = vtree::V::from_wire(&enc).ok()?;
+            if !vtree::substitute(&mut tree, good, bad) {
+                return None;
+            }
+            Some(tree.to_wire())
+        }
+        _ => {
+            let p = subslice_pos(&enc, good)?;
+            let mut e = enc.clone();
+            e[p..p + good.len()].copy_from_slice(bad);
+            Some(e)
+        }
+    }
 }
 
 fn subslice_pos(hay: &[u8], needle: &[u8]) -> Option<usize> {
